@@ -139,7 +139,7 @@ func (vfs *MemFS) Chown(name string, uid, gid int) error {
 	}
 
 	child.Lock()
-	child.setOwner(uid, gid)
+	child.setOwner(uid, gid, vfs.User())
 	child.Unlock()
 
 	return nil
@@ -310,7 +310,7 @@ func (vfs *MemFS) Lchown(name string, uid, gid int) error {
 	}
 
 	child.Lock()
-	child.setOwner(uid, gid)
+	child.setOwner(uid, gid, vfs.User())
 	child.Unlock()
 
 	return nil
@@ -599,6 +599,7 @@ func (vfs *MemFS) OpenFile(name string, flag int, perm fs.FileMode) (avfs.File, 
 
 		if om&avfs.OpenTruncate != 0 {
 			c.truncate(0)
+			c.removePrivs(vfs.User())
 		}
 
 	case *dirNode:
@@ -1077,6 +1078,7 @@ func (vfs *MemFS) Truncate(name string, size int64) error {
 	}
 
 	c.truncate(size)
+	c.removePrivs(vfs.User())
 
 	return nil
 }
